@@ -24,6 +24,7 @@ type CoreNet struct {
 	maxEv   int
 	mangle  float64
 	mangled int
+	reentered int
 	pred    map[string]interface{} // sched mode: the specification's prediction for the next step
 }
 
@@ -54,6 +55,33 @@ func NewCoreNet(w *World, o CoreOpts) *CoreNet {
 		cn.byNum[k] = n
 	}
 	return cn
+}
+
+// EnableReentrant: the application submits a follow-up transaction from inside its
+// commit handler now and then (with the in-process proxy nothing forbids it): the
+// transaction reaches the pool while the block is being committed, possibly in the
+// middle of the node's own addSelfEvent.  The specification does not follow such a
+// node any further (x.nospec); the property checks on the observed pools, events
+// and blocks go on.
+func (cn *CoreNet) EnableReentrant(p float64) {
+	for _, nd := range cn.nodes {
+		n := nd
+		budget := 3 // (a follow-up per commit for ever would be a workload that never ends)
+		n.app.onCommit = func(d *Delivered) {
+			if budget == 0 || cn.w.rng.Float64() >= p {
+				return
+			}
+			budget--
+			id, payload := cn.w.RandTx()
+			n.core.AddTransactions([][]byte{payload})
+			if n.nospec == "" {
+				n.nospec = "submission-inside-commit"
+			}
+			cn.reentered++
+			cn.w.Emit(n.num, "Submit", map[string]interface{}{"tx": id, "inside_commit": d.Block.Index()},
+				map[string]interface{}{"pool": len(n.core.TransactionPool())})
+		}
+	}
 }
 
 func (cn *CoreNet) Close() {
